@@ -493,3 +493,49 @@ func Main(m *testing.M, id string) {
 	S.Dump()
 	os.Exit(code)
 }
+
+// ---------------------------------------------------------------- unbiased draws
+//
+// rapid's integer and float generators are deliberately biased towards small
+// values (geometric bit length), which distorts weighted choices: measured,
+// IntRange(0,9999) < 200 holds 59 % of the time. Bool() is a fair bit, so
+// uniform choices are assembled from fair bits. They still shrink (towards 0).
+
+var fairBit = rapid.Bool()
+
+// Uniform draws an integer uniformly from [0, n).
+func Uniform(t *rapid.T, n int) int {
+	if n <= 1 {
+		return 0
+	}
+	bits := 0
+	for (1 << bits) < n {
+		bits++
+	}
+	for try := 0; ; try++ {
+		v := 0
+		for i := 0; i < bits; i++ {
+			v <<= 1
+			if fairBit.Draw(t, "b") {
+				v |= 1
+			}
+		}
+		if v < n {
+			return v
+		}
+		if try > 20 {
+			return v % n
+		}
+	}
+}
+
+// Chance is true with probability p (granularity 1/1024).
+func Chance(t *rapid.T, p float64) bool {
+	if p <= 0 {
+		return false
+	}
+	if p >= 1 {
+		return true
+	}
+	return float64(Uniform(t, 1024)) < p*1024
+}
